@@ -270,7 +270,7 @@ func (c SrvCfg) Expect(r Req) SrvExpect {
 	if r.V("host") != "absent" {
 		status(c.V("onhost"))
 	}
-	if r.V("extra") != "none" || r.V("key") == "foldname" || r.V("wsversion") == "foldname" {
+	if r.V("extra") != "none" || r.V("key") == "foldname" || r.V("wsversion") == "foldname" || r.V("key") == "crname" || r.V("wsversion") == "crname" {
 		// a header the upgrader does not know (incl. a look-alike of a known one) goes to OnHeader
 		status(c.V("onheader"))
 	}
